@@ -29,14 +29,17 @@ impl Solution {
             .ok_or(Error::Interpolation(InterpolationError::NotEnabled))?;
         let (start, end) = dense.t_span().ok_or(Error::Interpolation(InterpolationError::NotEnabled))?;
         let (lo, hi) = (start.min(end), start.max(end));
-        if t < lo || t > hi {
+        // The last reported time is xend itself, the end of the last segment is xold + h: they may
+        // differ by rounding.  Times within rounding of the covered range belong to it.
+        let slack = 4.0 * Float::EPSILON * lo.abs().max(hi.abs());
+        if t < lo - slack || t > hi + slack {
             return Err(Error::Interpolation(InterpolationError::OutOfRange {
                 t,
                 t_start: start,
                 t_end: end,
             }));
         }
-        dense.evaluate(t).ok_or(Error::Interpolation(InterpolationError::OutOfRange {
+        dense.evaluate(t.clamp(lo, hi)).ok_or(Error::Interpolation(InterpolationError::OutOfRange {
             t,
             t_start: start,
             t_end: end,
@@ -52,8 +55,9 @@ impl Solution {
             .ok_or(Error::Interpolation(InterpolationError::NotEnabled))?;
         let (start, end) = dense.t_span().ok_or(Error::Interpolation(InterpolationError::NotEnabled))?;
         let (lo, hi) = (start.min(end), start.max(end));
+        let slack = 4.0 * Float::EPSILON * lo.abs().max(hi.abs());
         for &t in ts {
-            if t < lo || t > hi {
+            if t < lo - slack || t > hi + slack {
                 return Err(Error::Interpolation(InterpolationError::OutOfRange {
                     t,
                     t_start: start,
@@ -61,7 +65,8 @@ impl Solution {
                 }));
             }
         }
-        let results = dense.evaluate_many(ts);
+        let clamped: Vec<Float> = ts.iter().map(|t| t.clamp(lo, hi)).collect();
+        let results = dense.evaluate_many(&clamped);
         Ok(results.into_iter().map(|opt| opt.unwrap()).collect())
     }
 
